@@ -37,4 +37,5 @@ int hx_in_child(void (*fn)(void *arg, FILE *o), void *arg, char *outbuf, size_t 
 extern const hx_op ops_c14[];
 extern const hx_op ops_c16[];
 extern const hx_op ops_c15[];
+extern const hx_op ops_c03[];
 #endif
